@@ -2,7 +2,6 @@ import Proofs.C10.FinMulti
 import Proofs.C10.Wrapped
 import Proofs.C10.ExampleKey
 import Proofs.C10.ExampleEcdsa
-import Proofs.C10.ExampleSchnorr
 import Proofs.C10.Checker
 import Proofs.C10.Bip322
 import Proofs.E2E.C10
@@ -1257,19 +1256,18 @@ example : (pushedSigs (fun _ => true)
 
 /-! ### the `_secp256k1` closures are not vacuous: concrete spends, every hypothesis discharged (`Proofs/C10/Example*.lean`)
 
-p2wpkh (ECDSA, SIGHASH_ALL) and taproot key path (BIP340, SIGHASH_DEFAULT) by the KERNEL -- real SHA-256 / RIPEMD-160 and
-secp256k1 arithmetic under `decide +kernel`; the other templates (p2pk, p2pkh, p2sh-p2wpkh over the six ECDSA hash types;
-2-of-3 bare / p2sh / p2wsh / p2sh-p2wsh multisig) by `#guard` in that module: sign, serialize, finalize, composed engine
-accepts, under all twenty-one flags. -/
+p2wpkh (ECDSA, SIGHASH_ALL) by the KERNEL here -- real SHA-256 / RIPEMD-160 and secp256k1 arithmetic under `decide +kernel`
+(about 5 minutes of kernel time whenever a model it depends on changes).  The taproot key path (BIP340, SIGHASH_DEFAULT) is
+kernel-checked the same way in `Proofs/C10/ExampleTapKey.lean`, which is NOT part of this module's build (11 minutes of
+kernel time; build it with `tools/lb Proofs.C10.ExampleTapKey`).  Every template (p2pk, p2pkh, p2wpkh, p2sh-p2wpkh over the
+six ECDSA hash types; 2-of-3 bare / p2sh / p2wsh / p2sh-p2wsh multisig; taproot key path and single-key leaf over the seven
+taproot hash types) is `#guard`ed in `Proofs/C10/Example.lean`: sign, serialize, finalize, composed engine accepts, under
+all twenty-one flags, run by the compiled evaluator at build time. -/
 
 example : ∃ ss wit, finalizedInput (fun _ => true) ⟨some (p2wpkh Ex.h), [], [], [(Ex.pk, Ex.der ++ [UInt8.ofNat 1])]⟩ =
       .ok (ss, wit) ∧ verifyScript (envOf secpCrypto Gen.Spend.EVERY_FLAG Ex.cx) ss (p2wpkh Ex.h) wit = .ok () :=
   closure_p2wpkh_secp256k1 (fun _ => true) Gen.Spend.EVERY_FLAG Ex.cx Ex.h Ex.pk 1 (by decide) (by decide) (by decide)
     (by decide) Ex.hh (by decide) Ex.hp Ex.hk Ex.hsign Ex.der Ex.hder (by decide +kernel) Ex.henc (by decide +kernel)
-
-example : verifyScript (envOf secpCrypto Gen.Spend.EVERY_FLAG Ex.cxT) [] (p2tr Ex.prog) [Ex.sig64 ++ []] = .ok () :=
-  closure_taproot_key_secp256k1 Gen.Spend.EVERY_FLAG Ex.cxT Ex.prog 0 (by decide) (by decide) (by decide) (by decide)
-    Ex.hdefT 4 Ex.q (List.replicate 32 0) Ex.sgT Ex.hsignT Ex.sig64 Ex.hserT Ex.hpkT
 
 /-
 NOT PROVED (full statements kept; the executable composition `Spend.verifyInput`, run against btclib's engine on every
